@@ -633,7 +633,12 @@ func init() {
 			// second clause
 			okExec := false
 			var at ssa.Instruction
-			for _, b := range fromChanges.Blocks {
+			var fcBlocks []*ssa.BasicBlock
+			for g := range x.closureOf([]*ssa.Function{fromChanges}, []string{convPkg}) {
+				// FromChanges itself and helpers of the package it calls (the check may be extracted)
+				fcBlocks = append(fcBlocks, g.Blocks...)
+			}
+			for _, b := range fcBlocks {
 				iff := prog.IfOf(b)
 				if iff == nil {
 					continue
@@ -658,7 +663,7 @@ func init() {
 				// the nil edge leaves with an error
 				leaves := false
 				for _, ins := range nilSucc.Instrs {
-					if r, ok := ins.(*ssa.Return); ok && len(r.Results) == 2 && !prog.IsNilConst(r.Results[1]) {
+					if r, ok := ins.(*ssa.Return); ok && len(r.Results) >= 1 && !prog.IsNilConst(r.Results[len(r.Results)-1]) {
 						leaves = true
 					}
 				}
@@ -1120,7 +1125,56 @@ func init() {
 				for i, c := range calls {
 					n++
 					cmp := Cmp{L: vpField(docKeyF), R: vpField(packKeyF), Want: EQ}
-					x.guardedSite(fmt.Sprintf("func=%s PushPull#%d row-key==pack-key", prog.FnName(fn), i+1), c, []Cmp{cmp}, nil)
+					key := fmt.Sprintf("func=%s PushPull#%d row-key==pack-key", prog.FnName(fn), i+1)
+					// the comparison may live in a helper that answers with an error: ensure(docInfo, pack.DocumentKey) — the
+					// call is reached only where that error was found nil, and the helper answers nil only where the keys are equal
+					viaHelper := ""
+					for _, hc := range prog.CallsIn(fn) {
+						h, ok := hc.(*ssa.Call)
+						if !ok || h.Call.StaticCallee() == nil || len(h.Call.StaticCallee().Blocks) == 0 {
+							continue
+						}
+						H := h.Call.StaticCallee()
+						res := H.Signature.Results()
+						if res.Len() != 1 || !isErrorType(res.At(0).Type()) {
+							continue
+						}
+						keyIdx, hasRow := -1, false
+						for ai, a := range h.Call.Args {
+							if pt, isP := a.Type().(*types.Pointer); isP && isNamed(pt.Elem(), diT) {
+								hasRow = true
+							}
+							if prog.LoadedField(a) == packKeyF {
+								keyIdx = ai
+							}
+						}
+						if !hasRow || keyIdx < 0 || keyIdx >= len(H.Params) {
+							continue
+						}
+						errV := VP{"the helper's error", func(w ssa.Value) bool { return prog.Strip(w) == ssa.Value(h) }}
+						if !x.quietGuarded(c, []Cmp{{L: errV, R: vpNil, Want: EQ}}) {
+							continue
+						}
+						kp := H.Params[keyIdx]
+						isKP := VP{"the key parameter", func(w ssa.Value) bool { return prog.Strip(w) == ssa.Value(kp) }}
+						all, any := true, false
+						for _, r := range prog.Returns(H) {
+							if len(r.Results) == 1 && prog.IsNilConst(r.Results[0]) {
+								any = true
+								if !x.quietGuarded(r, []Cmp{{L: vpField(docKeyF), R: isKP, Want: EQ}}) {
+									all = false
+								}
+							}
+						}
+						if any && all {
+							viaHelper = prog.FnName(H)
+						}
+					}
+					if viaHelper != "" {
+						x.hold(key, x.pos(c), "the keys are compared by "+viaHelper+", whose error is checked before the push")
+						continue
+					}
+					x.guardedSite(key, c, []Cmp{cmp}, nil)
 				}
 			}
 			if n < 3 {
@@ -1517,4 +1571,816 @@ func init() {
 				x.C.Vacuous(x.id()+" narrowing assertions in a path walk", n, 1)
 			}
 		}})
+}
+
+// Round 10: rules written after the fifth seeded round of C11–C20.
+func init() {
+	register(&Rule{ID: "VV.detach", Min: 1, Text: "a client that is no longer attached loses its vector row on every path: in the memory backend, the function that writes a client's version-vector row and deletes it when the client is not attached (it calls ClientInfo.IsAttached and deletes from the version-vector table) takes no successful exit before the attachment test — every return of a nil error is dominated by the IsAttached call. A shortcut in front of it (\"a request without a vector has nothing to record\") skips the deletion for exactly the requests the server builds itself: the detach that deactivation runs carries no vector, the row stays, and its stale vector bounds the minimum for ever",
+		Run: func(x *Ctx) {
+			isAtt := x.P.FnObj("server/backend/database.(*ClientInfo).IsAttached")
+			if isAtt == nil {
+				x.C.Unresolved(x.id(), "ClientInfo.IsAttached")
+				return
+			}
+			n := 0
+			for _, fn := range x.P.FuncsIn("server/backend/database/memory") {
+				if len(fn.Blocks) == 0 {
+					continue
+				}
+				atts := callsTo([]*ssa.Function{fn}, isAtt)
+				if len(atts) == 0 {
+					continue
+				}
+				deletes := false
+				for _, c := range prog.CallsIn(fn) {
+					if o := prog.CallObj(c); o != nil && (o.Name() == "DeleteAll" || o.Name() == "Delete") {
+						for _, a := range c.Common().Args {
+							if g, ok := prog.Strip(a).(*ssa.Global); ok && strings.Contains(strings.ToLower(g.Name()), "versionvector") {
+								deletes = true
+							}
+							if u, ok := a.(*ssa.UnOp); ok {
+								if g, ok := u.X.(*ssa.Global); ok && strings.Contains(strings.ToLower(g.Name()), "versionvector") {
+									deletes = true
+								}
+							}
+							if k, ok := constString(a); ok && strings.Contains(strings.ToLower(k), "versionvector") {
+								deletes = true
+							}
+						}
+					}
+				}
+				if !deletes {
+					continue
+				}
+				for i, r := range prog.Returns(fn) {
+					if !prog.ReturnsNilError(r) {
+						continue
+					}
+					n++
+					ok := false
+					for _, a := range atts {
+						if prog.Dominates(a, r) {
+							ok = true
+						}
+					}
+					x.check(ok, fmt.Sprintf("func=%s ok-return#%d after-the-attachment-test", prog.FnName(fn), i+1), x.pos(r),
+						"the attachment test precedes this successful exit", "a successful exit is taken before ClientInfo.IsAttached was consulted: on that path the row of a client that has detached is not deleted")
+				}
+			}
+			if n < 1 {
+				x.C.Vacuous(x.id()+" successful exits of the row writer", n, 1)
+			}
+		}})
+
+	register(&Rule{ID: "DEACT.all", Min: 1, Text: "deactivation detaches every document the client still has attached: in clients.Deactivate the detach request (ClusterClient.DetachDocument) is sent for every document of the list — inside its loop the call depends on no condition but the loop's own. DB.DeactivateClient refuses a client that still has an attached document, so a document that is skipped (\"it is removed anyway\") makes the client impossible to deactivate: it stays activated, with the document attached and its vector row in place",
+		Run: func(x *Ctx) {
+			fn := x.fn("server/clients.Deactivate")
+			if fn == nil {
+				return
+			}
+			n := 0
+			loops := prog.Loops(fn)
+			for _, c := range prog.CallsIn(fn) {
+				name := ""
+				if c.Common().IsInvoke() {
+					name = c.Common().Method.Name()
+				} else if o := prog.CallObj(c); o != nil {
+					name = o.Name()
+				}
+				if name != "DetachDocument" {
+					continue
+				}
+				n++
+				bad := ""
+				for _, l := range loops {
+					if !l.Body[c.Block()] {
+						continue
+					}
+					conds := loopConds(fn)
+					for _, iff := range x.P.ControlDeps(c.Block()) {
+						if l.Body[iff.Block()] && !conds[iff] {
+							bad = x.pos(iff)
+						}
+					}
+				}
+				x.check(bad == "", fmt.Sprintf("func=%s detach-request#%d sent-for-every-document", prog.FnName(fn), n), x.pos(c),
+					"every listed document is detached", "inside the loop the detach request depends on a further condition (at "+bad+"): a document that is skipped stays attached and DeactivateClient refuses the client")
+			}
+			if n < 1 {
+				x.C.Vacuous(x.id()+" detach requests in Deactivate", n, 1)
+			}
+		}})
+
+	register(&Rule{ID: "EPOCH.fallback", Min: 1, Text: "every request that ends an attachment gets through after a compaction: the pull's fallback for an epoch mismatch (an empty pack instead of the error) applies to detach and to remove alike — in the function of package packs that tests the pull error against ErrEpochMismatch, the request's Status is compared with both document.StatusDetached and document.StatusRemoved. The push has already marked the document removed when the pull fails; with remove left out the remover gets ErrEpochMismatch for a removal that took place, keeps its attachment and its vector row, and every retry moves the removal date and fails again",
+		Run: func(x *Ctx) {
+			em, _ := x.P.Lookup("server/packs.ErrEpochMismatch").(*types.Var)
+			det, ok1 := x.constInt("pkg/document.StatusDetached")
+			rem, ok2 := x.constInt("pkg/document.StatusRemoved")
+			if em == nil || !ok1 || !ok2 {
+				x.C.Unresolved(x.id(), "packs.ErrEpochMismatch / document.StatusDetached / StatusRemoved")
+				return
+			}
+			n := 0
+			for _, fn := range x.P.FuncsIn("server/packs") {
+				if len(fn.Blocks) == 0 {
+					continue
+				}
+				// does it test an error against ErrEpochMismatch (errors.Is(err, ErrEpochMismatch))?
+				tests := false
+				for _, c := range prog.CallsIn(fn) {
+					if o := prog.CallObj(c); o != nil && o.Name() == "Is" && o.Pkg() != nil && o.Pkg().Path() == "errors" {
+						for _, a := range c.Common().Args {
+							if prog.Reaches(a, func(w ssa.Value) bool {
+								g, ok := w.(*ssa.Global)
+								return ok && g.Object() == types.Object(em)
+							}) {
+								tests = true
+							}
+						}
+					}
+				}
+				if !tests {
+					continue
+				}
+				seen := map[int64]bool{}
+				for _, b := range fn.Blocks {
+					for _, ins := range b.Instrs {
+						bo, ok := ins.(*ssa.BinOp)
+						if !ok || bo.Op != token.EQL {
+							continue
+						}
+						// a comparison of the request's Status (a field named Status) with a constant
+						for _, pair := range [][2]ssa.Value{{bo.X, bo.Y}, {bo.Y, bo.X}} {
+							if f := prog.LoadedField(pair[0]); f != nil && f.Name() == "Status" {
+								if k, ok := prog.IntConst(pair[1]); ok {
+									seen[k] = true
+								}
+							}
+						}
+					}
+				}
+				if !seen[det] && !seen[rem] {
+					continue // the push's own epoch test has no status fallback
+				}
+				n++
+				x.check(seen[det] && seen[rem], "func="+prog.FnName(fn)+" epoch-mismatch-fallback covers-detach-and-remove", x.fpos(fn),
+					"the fallback applies to detach and to remove", "the epoch-mismatch fallback of the pull is no longer taken for both detach and remove: the one left out fails with ErrEpochMismatch after a compaction although the push has already taken effect")
+			}
+			if n < 1 {
+				x.C.Vacuous(x.id()+" epoch-mismatch fallbacks", n, 1)
+			}
+		}})
+
+	register(&Rule{ID: "P.norm", Min: 1, Text: "one decoder for a presence: in package converter the data of an api.Presence message is read (GetData / the Data field) in one function only, the one that turns an absent map into an empty one; every other decoder (the snapshot's presence map, a presence change) goes through it. Read directly on one path, a participant that attached without initial presence is {} on a replica that pulled changes and nil on one that pulled a snapshot: AllPresences() differ, Presences() skips it, and its own next Set panics on a nil map",
+		Run: func(x *Ctx) {
+			n := 0
+			var readers []string
+			var at = map[string]string{}
+			for _, fn := range x.P.FuncsIn(convPkg) {
+				if len(fn.Blocks) == 0 {
+					continue
+				}
+				file := x.P.Fset.Position(fn.Pos()).Filename
+				if !strings.HasSuffix(file, "from_pb.go") && !strings.HasSuffix(file, "from_bytes.go") {
+					continue
+				}
+				for _, b := range fn.Blocks {
+					for _, ins := range b.Instrs {
+						reads := false
+						switch t := ins.(type) {
+						case *ssa.Call:
+							if o := prog.CallObj(t); o != nil && o.Name() == "GetData" {
+								if sig, ok := o.Type().(*types.Signature); ok && sig.Recv() != nil && namedOf(sig.Recv().Type()) != nil && namedOf(sig.Recv().Type()).Obj().Name() == "Presence" {
+									reads = true
+								}
+							}
+						case *ssa.FieldAddr:
+							if f := prog.FieldVar(t); f != nil && f.Name() == "Data" && namedOf(t.X.Type()) != nil && namedOf(t.X.Type()).Obj().Name() == "Presence" && strings.Contains(namedOf(t.X.Type()).Obj().Pkg().Path(), "/api/") {
+								reads = true
+							}
+						}
+						if reads {
+							if _, dup := at[prog.FnName(fn)]; !dup {
+								readers = append(readers, prog.FnName(fn))
+								at[prog.FnName(fn)] = x.pos(ins)
+							}
+						}
+					}
+				}
+			}
+			sortStrings(readers)
+			n = len(readers)
+			if n >= 1 {
+				x.check(n == 1, "presence-data-read-in-one-decoder", at[readers[0]], "read in "+readers[0]+" only", "the data of an api.Presence message is read in several decoders ("+strings.Join(readers, ", ")+"): only one of them normalises an absent map")
+			}
+			if n < 1 {
+				x.C.Vacuous(x.id()+" readers of api.Presence.Data", n, 1)
+			}
+		}})
+
+	register(&Rule{ID: "AUTH.verb", Min: 1, Text: "a pack that stores anything is announced as a write: in auth.AccessAttributes the verb handed to the authorisation webhook is Read only on the edge where Pack.HasChanges() is false — a pack with changes, presence-only ones included, is stored in the change log, advances the server sequence and is delivered to peers. Chosen by operations alone, a token that may only read can append changes to the document",
+		Run: func(x *Ctx) {
+			fn := x.fn("server/rpc/auth.AccessAttributes")
+			has := x.P.FnObj(changePkg + ".(*Pack).HasChanges")
+			if fn == nil || has == nil {
+				if has == nil {
+					x.C.Unresolved(x.id(), "Pack.HasChanges")
+				}
+				return
+			}
+			// the verb value: a phi of the two constants, selected by the test of HasChanges()
+			ok := false
+			var where ssa.Instruction
+			for _, b := range fn.Blocks {
+				iff := prog.IfOf(b)
+				if iff == nil {
+					continue
+				}
+				where = iff
+				if c, isC := prog.Strip(iff.Cond).(*ssa.Call); isC && sameFunc(prog.CallObj(c), has) {
+					ok = true
+				}
+			}
+			nIf := 0
+			for _, b := range fn.Blocks {
+				if prog.IfOf(b) != nil {
+					nIf++
+				}
+			}
+			pos := x.fpos(fn)
+			if where != nil {
+				pos = x.pos(where)
+			}
+			x.check(ok && nIf == 1, "func="+prog.FnName(fn)+" verb-chosen-by-HasChanges", pos, "ReadWrite is announced exactly when the pack has changes", "the verb announced to the authorisation webhook is no longer chosen by Pack.HasChanges(): a pack whose changes carry no operations (presence only) is stored like any other but announced as a read")
+		}})
+
+	register(&Rule{ID: "S6.cont", Min: 1, Text: "a skipped operation skips itself only: in Change.Execute the edge on which an operation answered ErrOperationSkipped goes on with the next operation — it stays inside the loop over the operations. Skipping happens on the undoing client alone while the pushed change carries every operation; leaving the loop there drops the rest of the entry on the undoer and not on the peers",
+		Run: func(x *Ctx) {
+			fn := x.fn(changePkg + ".(*Change).Execute")
+			skipped, _ := x.P.Lookup(opsPkg + ".ErrOperationSkipped").(*types.Var)
+			if fn == nil || skipped == nil {
+				if skipped == nil {
+					x.C.Unresolved(x.id(), "operations.ErrOperationSkipped")
+				}
+				return
+			}
+			n := 0
+			for _, b := range fn.Blocks {
+				iff := prog.IfOf(b)
+				if iff == nil {
+					continue
+				}
+				c, ok := prog.Strip(iff.Cond).(*ssa.Call)
+				if !ok {
+					continue
+				}
+				o := prog.CallObj(c)
+				if o == nil || o.Name() != "Is" {
+					continue
+				}
+				isSkip := false
+				for _, a := range c.Call.Args {
+					if prog.Reaches(a, func(w ssa.Value) bool { g, ok := w.(*ssa.Global); return ok && g.Object() == types.Object(skipped) }) {
+						isSkip = true
+					}
+				}
+				if !isSkip {
+					continue
+				}
+				n++
+				stays := false
+				for _, l := range prog.Loops(fn) {
+					if l.Body[b] && l.Body[b.Succs[0]] {
+						stays = true
+					}
+				}
+				x.check(stays, fmt.Sprintf("func=%s skipped-edge#%d continues-with-the-next-operation", prog.FnName(fn), n), x.pos(iff),
+					"the skipped edge stays in the loop", "on ErrOperationSkipped the loop over the operations is left: the operations behind a skipped one are not executed on the undoing client, while peers execute all of them")
+			}
+			if n < 1 {
+				x.C.Vacuous(x.id()+" tests for ErrOperationSkipped", n, 1)
+			}
+		}})
+
+	register(&Rule{ID: "WG.join", Min: 2, Text: "what a function launches and promises to wait for, it waits for on every exit: in the server packages, a function that starts goroutines through a local sync.WaitGroup (wg.Go, or wg.Add with a go statement) and calls wg.Wait reaches every return that a launch can precede only through a Wait. An early return on a cancelled context that skips the Wait hands control back while deactivations are still in flight: the caller releases the housekeeping lock under them, cycles overlap, and the goroutines outlive shutdown",
+		Run: func(x *Ctx) {
+			n := 0
+			for _, fn := range x.P.ProdFuncs() {
+				if len(fn.Blocks) == 0 || !strings.HasPrefix(strings.TrimPrefix(prog.PkgOf(fn), prog.Mod+"/"), "server") {
+					continue
+				}
+				var launches, waits []ssa.Instruction
+				for _, c := range prog.CallsIn(fn) {
+					o := prog.CallObj(c)
+					if o == nil || o.Pkg() == nil || o.Pkg().Path() != "sync" {
+						continue
+					}
+					sig, _ := o.Type().(*types.Signature)
+					if sig == nil || sig.Recv() == nil || namedOf(sig.Recv().Type()) == nil || namedOf(sig.Recv().Type()).Obj().Name() != "WaitGroup" {
+						continue
+					}
+					// a local wait group only
+					if len(c.Common().Args) == 0 {
+						continue
+					}
+					if _, isAlloc := c.Common().Args[0].(*ssa.Alloc); !isAlloc {
+						continue
+					}
+					if _, isDefer := c.(*ssa.Defer); isDefer {
+						if o.Name() == "Wait" {
+							waits = append(waits, nil) // deferred: every exit waits
+						}
+						continue
+					}
+					switch o.Name() {
+					case "Go", "Add":
+						launches = append(launches, c)
+					case "Wait":
+						waits = append(waits, c)
+					}
+				}
+				if len(launches) == 0 || len(waits) == 0 {
+					continue
+				}
+				deferred := false
+				for _, w := range waits {
+					if w == nil {
+						deferred = true
+					}
+				}
+				for i, r := range prog.Returns(fn) {
+					after := false
+					for _, l := range launches {
+						if prog.MayPrecede(l, r) {
+							after = true
+						}
+					}
+					if !after {
+						continue
+					}
+					n++
+					ok := deferred
+					if !ok {
+						// every path from a launch to this return passes a Wait
+						ok = true
+						for _, l := range launches {
+							if !prog.MayPrecede(l, r) {
+								continue
+							}
+							passes := false
+							for _, w := range waits {
+								if w != nil && passesThrough2(l, r, w) {
+									passes = true
+								}
+							}
+							if !passes {
+								ok = false
+							}
+						}
+					}
+					x.check(ok, fmt.Sprintf("func=%s return#%d joins-what-was-launched", prog.FnName(fn), i+1), x.pos(r),
+						"the wait group is waited for before this return", "a return that goroutines launched through the function's wait group can precede is reached without wg.Wait: the function hands control back while they are still running")
+				}
+			}
+			if n < 2 {
+				x.C.Vacuous(x.id()+" returns behind a launch", n, 2)
+			}
+		}})
+
+	register(&Rule{ID: "PS.only", Min: 2, Text: "a subscription enters a set only under the map's lock: in PubSub.Subscribe and SubscribeChannel every call that adds the new subscription to a set of subscriptions (Subscriptions.Set) sits inside the callback handed to the per-key map's Upsert — none in the subscribing function itself (a 'fast path' through Get). The last Unsubscribe closes and removes an empty set under that same lock; an insertion outside it can land in a set that has just been orphaned: Subscribe has returned, the subscriber is in no ClientIDs() and no Publish ever reaches it",
+		Run: func(x *Ctx) {
+			n := 0
+			for _, name := range []string{"Subscribe", "SubscribeChannel"} {
+				fn := x.fn(psPkg + ".(*PubSub)." + name)
+				if fn == nil {
+					continue
+				}
+				for _, g := range append([]*ssa.Function{fn}, prog.Closures(fn)...) {
+					for _, c := range prog.CallsIn(g) {
+						o := prog.CallObj(c)
+						if o == nil || o.Name() != "Set" {
+							continue
+						}
+						sig, _ := o.Type().(*types.Signature)
+						if sig == nil || sig.Recv() == nil || namedOf(sig.Recv().Type()) == nil || !strings.Contains(namedOf(sig.Recv().Type()).Obj().Name(), "Subscriptions") {
+							continue
+						}
+						n++
+						// g is a closure handed to Upsert
+						inCallback := false
+						if g != fn {
+							for _, site := range prog.CallsIn(g.Parent()) {
+								if so := prog.CallObj(site); so != nil && so.Name() == "Upsert" {
+									for _, cl := range closureArgs(site) {
+										if cl == g {
+											inCallback = true
+										}
+									}
+								}
+							}
+						}
+						x.check(inCallback, fmt.Sprintf("func=%s insertion#%d inside-the-Upsert-callback", prog.FnName(fn), n), x.pos(c),
+							"the subscription is added inside the Upsert callback", "a subscription is added to a set outside the map's Upsert callback: the last Unsubscribe can close and remove that set between the lookup and the insertion")
+					}
+				}
+			}
+			if n < 2 {
+				x.C.Vacuous(x.id()+" insertions of a subscription", n, 2)
+			}
+		}})
+
+	register(&Rule{ID: "PS.loop", Min: 1, Text: "the batching publisher stops only when it is closed: every return of BatchPublisher.processLoop lies on the branch of its select that received from the close channel (closeChan). The set of subscriptions a publisher serves stays registered while it is empty — only Unsubscribe removes it — so a loop that also ends 'when nobody is left' leaves a registered set without its publisher: a later subscriber joins it, Publish appends events that are never flushed, and every watcher of that document is silent from then on",
+		Run: func(x *Ctx) {
+			fn := x.fn(psPkg + ".(*BatchPublisher).processLoop")
+			if fn == nil {
+				return
+			}
+			// the select and the index of its closeChan state
+			var sel *ssa.Select
+			closeIdx := -1
+			for _, b := range fn.Blocks {
+				for _, ins := range b.Instrs {
+					if s, ok := ins.(*ssa.Select); ok {
+						sel = s
+						for i, st := range s.States {
+							if f := prog.LoadedField(st.Chan); f != nil && strings.Contains(strings.ToLower(f.Name()), "close") {
+								closeIdx = i
+							}
+						}
+					}
+				}
+			}
+			if sel == nil || closeIdx < 0 {
+				x.fail("func="+prog.FnName(fn)+" shape", x.fpos(fn), "processLoop no longer selects on the close channel")
+				return
+			}
+			// the block entered when the close state fired: Extract #0 == closeIdx
+			var closeBlock *ssa.BasicBlock
+			for _, b := range fn.Blocks {
+				iff := prog.IfOf(b)
+				if iff == nil {
+					continue
+				}
+				bo, ok := iff.Cond.(*ssa.BinOp)
+				if !ok || bo.Op != token.EQL {
+					continue
+				}
+				if ex, isE := bo.X.(*ssa.Extract); isE && ex.Tuple == ssa.Value(sel) && ex.Index == 0 {
+					if k, isK := prog.IntConst(bo.Y); isK && int(k) == closeIdx {
+						closeBlock = b.Succs[0]
+					}
+				}
+			}
+			n := 0
+			for i, r := range prog.Returns(fn) {
+				if r.Block() == fn.Recover {
+					continue
+				}
+				n++
+				ok := closeBlock != nil && (closeBlock == r.Block() || closeBlock.Dominates(r.Block()))
+				if closeBlock == nil {
+					// the close state is the select's last: its branch is the final else of the dispatch chain
+					ok = false
+					for _, b := range fn.Blocks {
+						iff := prog.IfOf(b)
+						if iff == nil {
+							continue
+						}
+						if bo, isBO := iff.Cond.(*ssa.BinOp); isBO {
+							if ex, isE := bo.X.(*ssa.Extract); isE && ex.Tuple == ssa.Value(sel) && ex.Index == 0 {
+								if k, isK := prog.IntConst(bo.Y); isK && int(k) == closeIdx-1 && (b.Succs[1] == r.Block() || b.Succs[1].Dominates(r.Block())) {
+									ok = true
+								}
+							}
+						}
+					}
+				}
+				x.check(ok, fmt.Sprintf("func=%s return#%d on-the-close-branch", prog.FnName(fn), i+1), x.pos(r),
+					"the loop ends on the close branch", "the publisher's loop can end on a branch other than the close channel's: a registered set is left without its publisher, and what is published to it afterwards is never delivered")
+			}
+			if n < 1 {
+				x.C.Vacuous(x.id()+" returns of processLoop", n, 1)
+			}
+		}})
+
+	register(&Rule{ID: "REC.att", Min: 2, Text: "an attachment record names the generation it belongs to: every composite literal of database.ClientDocInfo in the production packages that sets the Status attached also sets Epoch (the provisional \"attaching\" record of TryAttaching is replaced by AttachDocument's, which has it). The push compares the attachment's epoch with the document's; a record built without it (the system client that revisions.Restore and the admin's UpdateDocument push through) carries epoch 0, and once the document has been compacted its push is refused as coming from a stale generation: the revision cannot be restored any more",
+		Run: func(x *Ctx) {
+			cdT := x.P.Named("server/backend/database.ClientDocInfo")
+			epochF := x.P.Field("server/backend/database.ClientDocInfo.Epoch")
+			statusF := x.P.Field("server/backend/database.ClientDocInfo.Status")
+			if cdT == nil || epochF == nil || statusF == nil {
+				x.C.Unresolved(x.id(), "ClientDocInfo.Epoch / Status")
+				return
+			}
+			n := 0
+			for _, fn := range x.P.ProdFuncs() {
+				if len(fn.Blocks) == 0 {
+					continue
+				}
+				k := 0
+				for _, b := range fn.Blocks {
+					for _, ins := range b.Instrs {
+						al, ok := ins.(*ssa.Alloc)
+						if !ok {
+							continue
+						}
+						pt, _ := al.Type().(*types.Pointer)
+						if pt == nil || !isNamed(pt.Elem(), cdT) {
+							continue
+						}
+						hasStatus, hasEpoch := false, false
+						for _, r := range *al.Referrers() {
+							fa, isFA := r.(*ssa.FieldAddr)
+							if !isFA {
+								continue
+							}
+							stored := false
+							for _, rr := range *fa.Referrers() {
+								if st, isSt := rr.(*ssa.Store); isSt && st.Addr == ssa.Value(fa) {
+									stored = true
+									if prog.FieldVar(fa) == statusF {
+										// "attaching" is the provisional record of TryAttaching; AttachDocument replaces it with one that has the epoch
+										if s, isS := constString(st.Val); isS && s == "attached" {
+											hasStatus = true
+										}
+									}
+								}
+							}
+							if stored && prog.FieldVar(fa) == epochF {
+								hasEpoch = true
+							}
+						}
+						if !hasStatus {
+							continue
+						}
+						k++
+						n++
+						x.check(hasEpoch, fmt.Sprintf("func=%s attachment-record#%d sets-Epoch", prog.FnName(fn), k), x.pos(al),
+							"the record carries the document's epoch", "an attachment record is built with a status of attached and without an Epoch: it counts as epoch 0, and its push is refused as stale once the document has been compacted")
+					}
+				}
+			}
+			if n < 2 {
+				x.C.Vacuous(x.id()+" attachment records built", n, 2)
+			}
+		}})
+
+	register(&Rule{ID: "LOOP.apply", Min: 1, Text: "a loop that walks a chain acts on the link it has reached: in the CRDT model, where a loop carries a pointer from iteration to iteration (next = …) and calls a method of that pointer's type that takes arguments (not a plain accessor), at least one such call in the loop has the advancing pointer as its receiver — not every one of them the same loop-invariant node. A propagation loop that applies the effect to the node it started from at every step (a copy-paste of the line above it) never reaches the siblings it walks: remove-style does not reach the halves of a concurrently split element",
+		Run: func(x *Ctx) {
+			n := 0
+			for _, fn := range x.P.FuncsIn(crdtPkg) {
+				if len(fn.Blocks) == 0 || (fn.Origin() != nil && fn.Origin() != fn) {
+					continue
+				}
+				k := 0
+				for _, l := range prog.Loops(fn) {
+					for _, ins := range l.Header.Instrs {
+						ph, ok := ins.(*ssa.Phi)
+						if !ok {
+							break
+						}
+						if _, isPtr := ph.Type().Underlying().(*types.Pointer); !isPtr {
+							continue
+						}
+						updated := false
+						for i, e := range ph.Edges {
+							if l.Body[l.Header.Preds[i]] && e != ssa.Value(ph) {
+								updated = true
+							}
+						}
+						if !updated {
+							continue
+						}
+						// method calls in the loop whose receiver has the phi's type
+						onCarried, onInvariant := 0, ""
+						for b := range l.Body {
+							for _, bi := range b.Instrs {
+								c, isC := bi.(*ssa.Call)
+								if !isC || c.Call.IsInvoke() || c.Call.StaticCallee() == nil || c.Call.StaticCallee().Signature.Recv() == nil || len(c.Call.Args) == 0 {
+									continue
+								}
+								rv := c.Call.Args[0]
+								if !types.Identical(rv.Type(), ph.Type()) {
+									continue
+								}
+								// accessors (no argument besides the receiver) do not count
+								if len(c.Call.Args) < 2 {
+									continue
+								}
+								if prog.Reaches(rv, func(w ssa.Value) bool { return w == ssa.Value(ph) }) || prog.DependsOn(rv, func(w ssa.Value) bool { return w == ssa.Value(ph) }) {
+									onCarried++
+								} else if !l.Body[blockOf(rv)] {
+									onInvariant = x.pos(c)
+								}
+							}
+						}
+						if onCarried == 0 && onInvariant == "" {
+							continue
+						}
+						k++
+						n++
+						x.check(onCarried > 0, fmt.Sprintf("func=%s chain-walk#%d acts-on-the-reached-link", prog.FnName(fn), k), x.P.Pos(ph.Pos()),
+							"the loop acts on the pointer it advances", "every effectful call in this chain walk (at "+onInvariant+") has a node from outside the loop as its receiver and none the pointer the loop advances: the effect never reaches the links that are walked")
+					}
+				}
+			}
+			if n < 1 {
+				x.C.Vacuous(x.id()+" chain walks with an effect", n, 1)
+			}
+		}})
+}
+
+func init() {
+	register(&Rule{ID: "ATTR.span", Min: 1, Text: "a re-created element gets the attributes its span recorded: in Tree.recreateFromSpan some node constructor call (NewTreeNode) receives an attribute table that derives from the span's Attributes (their copy). A peer that has already collected the tombstone rebuilds the node from the span while the undoing client merely revives its own node; built bare, the peer shows <p> where the undoer shows <p bold=\"true\">, and nothing re-converges them",
+		Run: func(x *Ctx) {
+			fn := x.fn(crdtPkg + ".(*Tree).recreateFromSpan")
+			spanAttrs := x.P.Field(crdtPkg + ".TreeRestoreSpan.Attributes")
+			if fn == nil || spanAttrs == nil {
+				if spanAttrs == nil {
+					x.C.Unresolved(x.id(), "TreeRestoreSpan.Attributes")
+				}
+				return
+			}
+			ok := false
+			var at ssa.Instruction
+			for _, c := range prog.CallsIn(fn) {
+				o := prog.CallObj(c)
+				if o == nil || o.Name() != "NewTreeNode" {
+					continue
+				}
+				at = c
+				for _, a := range c.Common().Args {
+					if prog.DependsOn(a, func(w ssa.Value) bool { return prog.LoadedField(w) == spanAttrs }) || prog.Reaches(a, func(w ssa.Value) bool { return prog.LoadedField(w) == spanAttrs }) {
+						ok = true
+					}
+				}
+			}
+			pos := x.fpos(fn)
+			if at != nil {
+				pos = x.pos(at)
+			}
+			x.check(ok, "func="+prog.FnName(fn)+" recreated-node-carries-the-span's-attributes", pos, "a node constructor receives attributes derived from the span", "no node constructor in recreateFromSpan receives the span's attributes: a re-created element is bare on the replicas that had collected it")
+		}})
+
+	register(&Rule{ID: "CACHE.key", Min: 1, Text: "the key of a cached answer covers everything the answer depends on: the authorisation webhook is asked with a request body (the marshalled request: token, method and the attributes with their verbs), and its answer is cached; in the function of server/rpc/auth that looks the answer up in Cache.AuthWebhook, the key derives from that marshalled body (the result of json.Marshal of the request). A key assembled from selected fields that leaves the verb out serves the answer given for a read to a write of the same token on the same document: a read-only token writes, and the webhook is never asked",
+		Run: func(x *Ctx) {
+			n := 0
+			for _, fn := range x.P.FuncsIn("server/rpc/auth") {
+				if len(fn.Blocks) == 0 {
+					continue
+				}
+				for _, c := range prog.CallsIn(fn) {
+					o := prog.CallObj(c)
+					if o == nil || (o.Name() != "Get" && o.Name() != "Add") || len(c.Common().Args) < 2 {
+						continue
+					}
+					if f := prog.LoadedField(c.Common().Args[0]); f == nil || f.Name() != "AuthWebhook" {
+						continue
+					}
+					n++
+					key := c.Common().Args[1]
+					fromBody := func(w ssa.Value) bool {
+						ex, ok := w.(*ssa.Extract)
+						if !ok || ex.Index != 0 {
+							return false
+						}
+						cc, ok := ex.Tuple.(*ssa.Call)
+						if !ok {
+							return false
+						}
+						mo := prog.CallObj(cc)
+						return mo != nil && mo.Name() == "Marshal" && mo.Pkg() != nil && mo.Pkg().Path() == "encoding/json"
+					}
+					ok := prog.DependsOn(key, fromBody) || prog.Reaches(key, fromBody)
+					x.check(ok, fmt.Sprintf("func=%s cache-%s#%d key-derives-from-the-request-body", prog.FnName(fn), strings.ToLower(o.Name()), n), x.pos(c),
+						"the key derives from the marshalled request", "the key under which the webhook's answer is cached does not derive from the marshalled request body: a field the answer depends on (the verb) can be missing from it")
+				}
+			}
+			if n < 1 {
+				x.C.Vacuous(x.id()+" uses of the webhook cache", n, 1)
+			}
+		}})
+}
+
+func init() {
+	register(&Rule{ID: "CS.full", Min: 1, Text: "the whole requested range is asked for only when nothing is recorded as fetched: in ChangeStore.calcMissingRanges a return of the full request ([from, to] built from the two parameters) is reachable only on an edge where len(s.ranges) == 0. The tree of cached changes is empty whenever everything fetched so far was a hole (presence-only changes live elsewhere) while the ranges still say what was fetched; answering 'everything is missing' there asks the fetcher again for ranges already covered, on every pull of such a document",
+		Run: func(x *Ctx) {
+			fn := x.fn("server/backend/database/mongo.(*ChangeStore).calcMissingRanges")
+			rangesF := x.P.Field("server/backend/database/mongo.ChangeStore.ranges")
+			if fn == nil || rangesF == nil || len(fn.Params) < 3 {
+				if rangesF == nil {
+					x.C.Unresolved(x.id(), "ChangeStore.ranges")
+				}
+				return
+			}
+			from, to := fn.Params[1], fn.Params[2]
+			n := 0
+			for _, b := range fn.Blocks {
+				hasFrom, hasTo := false, false
+				for _, ins := range b.Instrs {
+					if st, ok := ins.(*ssa.Store); ok {
+						if f := prog.FieldVar(st.Addr); f != nil {
+							// a parameter captured by a closure is spilled to a local: look through the load
+							isPm := func(v ssa.Value, pm *ssa.Parameter) bool {
+								return v == ssa.Value(pm) || prog.Reaches(v, func(w ssa.Value) bool { return w == ssa.Value(pm) })
+							}
+							if f.Name() == "From" && isPm(st.Val, from) {
+								hasFrom = true
+							}
+							if f.Name() == "To" && isPm(st.Val, to) {
+								hasTo = true
+							}
+						}
+					}
+				}
+				if !hasFrom || !hasTo {
+					continue
+				}
+				// the block builds [from, to]; is it returned from here?
+				r, isRet := b.Instrs[len(b.Instrs)-1].(*ssa.Return)
+				if !isRet {
+					continue
+				}
+				n++
+				lenRanges := VP{"len(s.ranges)", func(v ssa.Value) bool {
+					c, ok := prog.Strip(v).(*ssa.Call)
+					if !ok {
+						return false
+					}
+					bi, ok := c.Call.Value.(*ssa.Builtin)
+					return ok && bi.Name() == "len" && prog.LoadedField(c.Call.Args[0]) == rangesF
+				}}
+				zero := VP{"0", func(v ssa.Value) bool { k, ok := prog.IntConst(v); return ok && k == 0 }}
+				x.guardedSite(fmt.Sprintf("func=%s full-range-return#%d only-when-no-range-is-recorded", prog.FnName(fn), n), r, []Cmp{{L: lenRanges, R: zero, Want: EQ}}, nil)
+			}
+			if n < 1 {
+				x.C.Vacuous(x.id()+" full-range returns", n, 1)
+			}
+		}})
+}
+
+func init() {
+	register(&Rule{ID: "YSON.long", Min: 1, Text: "a 64-bit integer is not read through a float: in the YSON parse functions (package yson) no value of type float64 is converted to a 64-bit integer (int64 — Long primitives and Long counters). encoding/json decodes every number into float64 unless told otherwise (Decoder.UseNumber), and a float64 holds integers exactly only up to 2^53: Long(9007199254740993) comes back as 9007199254740992 from a revision or a compaction's text form. Conversions to 32-bit integers are exact for every value the writer emits; a conversion to int64 is accepted only as the fallback of a function that also parses the decimal string (strconv.ParseInt) — the form the reader's own rewriting produces (F51)",
+		Run: func(x *Ctx) {
+			n := 0
+			cnt := map[string]int{}
+			for _, fn := range x.P.FuncsIn(ysonPkgRel) {
+				if len(fn.Blocks) == 0 {
+					continue
+				}
+				for _, b := range fn.Blocks {
+					for _, ins := range b.Instrs {
+						cv, ok := ins.(*ssa.Convert)
+						if !ok {
+							continue
+						}
+						from, ok1 := cv.X.Type().Underlying().(*types.Basic)
+						to, ok2 := cv.Type().Underlying().(*types.Basic)
+						if !ok1 || !ok2 || from.Info()&types.IsFloat == 0 || to.Info()&types.IsInteger == 0 {
+							continue
+						}
+						n++
+						cnt[prog.FnName(fn)]++
+						wide := to.Kind() == types.Int64 || to.Kind() == types.Uint64
+						if wide {
+							// the legacy branch of a reader that takes the exact path when it can: the function parses the decimal string too
+							for _, c := range prog.CallsIn(fn) {
+								if o := prog.CallObj(c); o != nil && o.Pkg() != nil && o.Pkg().Path() == "strconv" && (o.Name() == "ParseInt" || o.Name() == "ParseUint") {
+									wide = false
+								}
+							}
+						}
+						x.check(!wide, fmt.Sprintf("func=%s float-to-integer#%d %s->%s exact", prog.FnName(fn), cnt[prog.FnName(fn)], from.Name(), to.Name()), x.pos(cv),
+							"the conversion is exact for every value the writer emits", "a 64-bit integer is obtained from a float64 in the YSON parser: values above 2^53 are rounded on the way through the text form")
+					}
+				}
+			}
+			if n < 1 {
+				x.C.Vacuous(x.id()+" float-to-integer conversions in the parser", n, 1)
+			}
+		}})
+}
+
+// blockOf returns the block in which v is defined, or nil (parameters, constants, globals).
+func blockOf(v ssa.Value) *ssa.BasicBlock {
+	if ins, ok := v.(ssa.Instruction); ok {
+		return ins.Block()
+	}
+	return nil
+}
+
+// passesThrough2: every path from `from` to `to` executes `via`.
+func passesThrough2(from, to, via ssa.Instruction) bool {
+	if !prog.MayPrecede(from, to) {
+		return true
+	}
+	return !reachWithout(from, to, via)
+}
+
+func sortStrings(s []string) {
+	for i := 1; i < len(s); i++ {
+		for j := i; j > 0 && s[j] < s[j-1]; j-- {
+			s[j], s[j-1] = s[j-1], s[j]
+		}
+	}
 }
